@@ -316,6 +316,8 @@ add("c13_disjoint_id", "c13::h_disjoint::<Key, {N}, {J}>(false)", ["C13"], NJ([(
     unwind="max(N,J)+2", attrs=[SORT_CUT], fn="Map::get_disjoint_mut (pairwise different keys)", shape="S_id", timeout="40m")
 add("c18_disjoint_unchecked_u8", "c13::h_disjoint::<u8, {N}, {J}>(true)", ["C18"], NJ([(1, 1), (2, 1), (1, 2), (2, 2)]), NJ([(3, 2), (2, 3), (3, 3)]),
     unwind="max(N,J)+2", attrs=[SORT_CUT], fn="Map::get_disjoint_unchecked_mut (documented precondition: pairwise different keys)", shape="S_u8", timeout="40m")
+add("c18_disjoint_unchecked_wide", "c13::h_disjoint::<u8, {N}, {J}>(true)", ["C18", "C13"], NJ([(1, 5), (2, 5)]), NJ([(2, 6), (1, 8)]),
+    unwind="max(N,J)+2", attrs=[SORT_CUT], fn="Map::get_disjoint_unchecked_mut with many requested keys (J >= 5: beyond any 2-bit packing of the request index; J = 33 for a 32-bit mask did not finish in 15 min and is not instantiated)", shape="S_u8", timeout="40m")
 add("c13_disjoint_empty", "c13::h_disjoint_empty::<{N}>()", ["C13"], N_(0, 2), N_(0, 3), fn="Map::get_disjoint_mut with zero keys", shape="S_u8")
 add("c13_overlap", "c13::h_disjoint_overlap::<{N}, {J}>()", ["C13"], NJ([(1, 2), (2, 2), (2, 3)]), NJ([(3, 3), (2, 4), (3, 4)]), unwind="max(N,J)+2", profile="both",
     attrs=[SORT_CUT], expect=PANIC(*OVERLAP_PANIC), fn="Map::get_disjoint_mut with two equal present keys (must panic)", shape="S_u8")
